@@ -133,11 +133,18 @@ def model_check(scratch, ck, dev):
     gen = 0
     for kinds in (("valid", "reports", "valid", "valid"), ("raises", "valid", "valid"), ("valid", "valid", "reports"), ("valid", "raises", "reports", "valid")):
         n = len(kinds)
-        consts = {"Files": frozenset(range(1, n + 1)), "Kind": "=(" + " @@ ".join(f'{i + 1} :> "{k}"' for i, k in enumerate(kinds)) + ")",
-                  "NameOf": "=(" + " @@ ".join(f'{i + 1} :> "{"same" if i % 2 == 0 else "other"}"' for i in range(n)) + ")",
-                  "UsesOf": "=(" + " @@ ".join(f"{i + 1} :> {{{'' if i == 0 else 1}}}" for i in range(n)) + ")"}
+        fn = lambda body: "=(" + " @@ ".join(f"{i + 1} :> {body(i)}" for i in range(n)) + ")"
+        # one module per file; file i uses file 1, file 4 also file 3 (two dependency levels); every second entity is called "same";
+        # entities are named in reverse file order (so numbering depends on who is registered); one project-level page
+        consts = {"Files": frozenset(range(1, n + 1)), "Kind": fn(lambda i: f'"{kinds[i]}"'),
+                  "Units": frozenset(range(1, n + 1)), "FileOf": fn(lambda i: i + 1), "Class": fn(lambda i: 0),
+                  "UsesOf": fn(lambda i: "{}" if i == 0 else ("{1, 3}" if i == 3 else "{1}")), "Rank": fn(lambda i: n - i),
+                  "Ents": frozenset(range(1, n + 1)), "EFile": fn(lambda i: i + 1),
+                  "EKey": fn(lambda i: '<<"proc", "same">>' if i % 2 == 0 else '<<"proc", "other">>'), "NameRank": fn(lambda i: n - i),
+                  "Pages": frozenset(range(1, n + 2)), "PFile": "=(" + " @@ ".join([f"{i + 1} :> {i + 1}" for i in range(n)] + [f"{n + 1} :> 0"]) + ")"}
         mod, cfg = tlc.make_model(scratch, "Pipeline", dict(consts, Dev=frozenset()), name=f"MCd{n}{kinds[0][0]}", spec="Spec",
-                                  invariants=["CorrelateAfterDeps", "NoRegistrationOfFailedFile", "EveryCorruptFileReported", "Containment", "WriteOnlyRegistered"],
+                                  invariants=["CorrelateAfterDeps", "PruneAfterCorrelate", "NoRegistrationOfFailedFile", "EveryCorruptFileReported", "Containment",
+                                              "NamesInjective", "WriteOnlyRegistered", "WriteAfterWipe", "NothingBeforeParseEnds"],
                                   properties=["Terminates"])
         r = tlc.run(mod, cfg, workers=4, timeout=600)
         if not r.ok:
@@ -149,6 +156,9 @@ def model_check(scratch, ck, dev):
                               invariants=["NoRegistrationOfFailedFile"])
     if tlc.run(mod, cfg, workers=4, timeout=600).ok:
         raise tlc.TLCFailure("Pipeline: ReportContinues not caught (model vacuous)")
+    mod, cfg = tlc.make_model(scratch, "Pipeline", dict(consts, Dev=frozenset({"ReportContinues"})), name="MCv2", spec="Spec", invariants=["Containment"])
+    if tlc.run(mod, cfg, workers=4, timeout=600).ok:
+        raise tlc.TLCFailure("Pipeline: a registered corrupt file does not disturb the numbering in the model (Containment vacuous)")
     ck.coverage["states"] = tot
     ck.coverage["transitions"] = gen
 
